@@ -655,8 +655,15 @@ func (stub *stub) Configure(ctx context.Context, req *api.ConfigureRequest) (rpl
 	log.Infof(ctx, "Configuring plugin %s for runtime %s/%s...", stub.Name(),
 		req.RuntimeName, req.RuntimeVersion)
 
-	stub.registrationTimeout = time.Duration(req.RegistrationTimeout * int64(time.Millisecond))
-	stub.requestTimeout = time.Duration(req.RequestTimeout * int64(time.Millisecond))
+	// A runtime that does not pass timeouts (older NRI versions) leaves them
+	// zero. Keep our current ones then: a zero registration timeout would
+	// make every later (re)registration of this stub fail immediately.
+	if req.RegistrationTimeout > 0 {
+		stub.registrationTimeout = time.Duration(req.RegistrationTimeout * int64(time.Millisecond))
+	}
+	if req.RequestTimeout > 0 {
+		stub.requestTimeout = time.Duration(req.RequestTimeout * int64(time.Millisecond))
+	}
 
 	cfgErrC, ok := ctx.Value(cfgErrKey{}).(chan error)
 	if !ok {
